@@ -34,6 +34,8 @@ func typeString(code string) string {
 		return "universe.IA"
 	case "IAB":
 		return "universe.IAB"
+	case "IC":
+		return "universe.IC"
 	case "Pad2":
 		return "universe.Pad2"
 	}
